@@ -9,15 +9,28 @@ Chain (all on the layouts / configuration regenerated from /repo on every run):
                         the record is the frozen documented tree (`Spec.*`: group path, variable name, dims, unit attributes,
                         source field path, leaf function) evaluated on the parsed record: each output leaf IS the documented
                         field, and there are no other leaves.
+* `metadata`          — the whole `/metadata` subtree at once: `transform_metadata` on ANY leader file that parses gives the
+                        documented tree (which records become groups, under which names; map projection present exactly
+                        when the file holds such a record; attitude times fixed up with the year of the first orbit point).
 * `framing`           — the records start where the file declares (C05), for any attitude / facility lengths.
 * `numeric_text`      — the ASCII adapters accept exactly Python's `int()` / `float()` grammars after stripping; the value is
                         the token read as written (`float(token)` is CPython's contract, checked exactly by the harness).
 
-Partial: the attitude, data-quality (dynamic counts), platform-position and map-projection pipelines are covered by the
-layout theorems, the transformer correspondence and the end-to-end oracle, not yet by a provenance theorem;
-text → binary64 and `x * 1e24` are IEEE/CPython contracts.
+* `platform_position` / `map_projection` / `attitude` / `data_quality_summary` — the same statement for the remaining four
+                        records: the 28 state vectors regrouped per component, the first-point time as the composite of
+                        date text and seconds of day; the map-projection tree per designator class (UTM / UPS / LCC|MER /
+                        outside the table / no '-' ⇒ error), corner points and conversion coefficients regrouped; the
+                        attitude group for EVERY number n ≥ 1 of points (n = 0 ⇒ error) and the data-quality group for
+                        every number of channels 1 ≤ n ≤ 16 (the layout forces n ≤ 16), one entry per point / channel
+                        in file order.
+
+Partial: text → binary64, `x * 1e24`, `strptime` / `timedelta(seconds=float)` of the first-point time and numpy's
+timedelta arithmetic are IEEE / CPython / numpy contracts (checked exactly by the harness, C17 models the instants).
 -/
 import Alos2.Proofs.Provenance
+import Alos2.Proofs.Provenance2
+import Alos2.Proofs.Provenance3
+import Alos2.Proofs.Metadata
 import Alos2.Proofs.Fields
 
 namespace Alos2.C04
@@ -46,6 +59,57 @@ theorem transformations (ctx : Ctx) (bs : Bytes) (pos : Nat) (v : Val) (pos' : N
     (h : parse Gen.facilityRelatedData5Record ctx bs pos = .ok (v, pos')) :
     (transformRecord5 realLeafFns v.toPVal).map Grp.sortKeys = some (Spec.transformations.map (Sym.eval v)) :=
   record5_provenance ctx bs pos v pos' h
+
+theorem platform_position (ctx : Ctx) (bs : Bytes) (pos : Nat) (v : Val) (pos' : Nat)
+    (h : parse Gen.platformPositionRecord ctx bs pos = .ok (v, pos')) :
+    (transformPlatformPosition realLeafFns2 v.toPVal).map Grp.sortKeys = some (Spec.platformPosition.map (Sym.eval v)) :=
+  platform_position_provenance ctx bs pos v pos' h
+
+/-- the tree depends on the content only through the class of the designator text -/
+theorem map_projection (ctx : Ctx) (bs : Bytes) (pos : Nat) (v : Val) (pos' : Nat)
+    (h : parse Gen.mapProjectionRecord ctx bs pos = .ok (v, pos')) :
+    (transformMapProjection realLeafFns2 v.toPVal).map Grp.sortKeys =
+      (Spec.mapProjection (realLeafFns2.desig ((v.leafAt ["map_projection_designator"]).getD default))).map
+        (Grp.map (Sym.eval v)) :=
+  map_projection_provenance ctx bs pos v pos' h
+
+theorem attitude (ctx : Ctx) (bs : Bytes) (pos : Nat) (v : Val) (pos' : Nat)
+    (h : parse Gen.attitudeRecord ctx bs pos = .ok (v, pos')) :
+    ∃ n : Nat, v.getPath ["number_of_points"] = some (.leaf (.int n)) ∧
+      (0 < n → (transformAttitude realLeafFns2 v.toPVal).map Grp.sortKeys = some ((Spec.attitude n).map (Sym.eval v))) ∧
+      (n = 0 → transformAttitude realLeafFns2 v.toPVal = none) :=
+  attitude_provenance ctx bs pos v pos' h
+
+theorem data_quality_summary (ctx : Ctx) (bs : Bytes) (pos : Nat) (v : Val) (pos' : Nat)
+    (h : parse Gen.dataQualitySummaryRecord ctx bs pos = .ok (v, pos')) :
+    ∃ n : Nat, v.getPath ["number_of_channels"] = some (.leaf (.int n)) ∧ n ≤ 16 ∧
+      (0 < n → (transformDataQualitySummary v.toPVal).map Grp.sortKeys =
+        some ((Spec.dataQualitySummary n).map (Sym.eval v))) :=
+  data_quality_provenance ctx bs pos v pos' h
+
+/-- THE WHOLE `/metadata` SUBTREE: for every leader file that parses (any number k of map-projection records, any
+    attitude / facility record lengths, na ≥ 1 attitude points, nc ≥ 1 channels), `transform_metadata` — record selection,
+    the seven record pipelines, renames, the attitude time fix-up — yields the documented tree `Spec.metadata`: every
+    value under `/metadata` is the documented leader field (path from the leader record root) under the documented name,
+    dimension, unit attributes and group path, and there is nothing else. -/
+theorem metadata (bs : Bytes) (v : Val) (pos' : Nat)
+    (h : parse Gen.sarLeaderRecord [] bs 0 = .ok (v, pos')) :
+    ∃ k na nc : Nat,
+      v.getPath ["file_descriptor", "map_projection", "number_of_records"] = some (.leaf (.int k)) ∧
+      v.getPath ["attitude", "number_of_points"] = some (.leaf (.int na)) ∧
+      v.getPath ["data_quality_summary", "number_of_channels"] = some (.leaf (.int nc)) ∧
+      (0 < na → 0 < nc →
+        (transformLeaderMetadata realLeafFns3 v.toPVal).map Grp.sortKeys =
+          (Spec.metadata (decide (0 < k))
+            (realLeafFns2.desig ((v.leafAt ["map_projection", "[0]", "map_projection_designator"]).getD default))
+            na nc).map (Grp.map (Sym.eval v))) :=
+  metadata_provenance bs v pos' h
+
+/-- the designator classes: text before the first '-' (any letter case) looked up in the table -/
+theorem designator_classes :
+    desigOfString "UTM-PROJECTION" = .utm ∧ desigOfString "ups-x" = .ups ∧ desigOfString "LCC-PROJECTION" = .nat ∧
+    desigOfString "Mer-CATOR" = .nat ∧ desigOfString "XYZ-1" = .other ∧ desigOfString "-" = .other ∧
+    desigOfString "UTM" = .bad ∧ desigOfString "" = .bad ∧ desigOfString "lcc-a-b" = .nat := by decide +kernel
 
 theorem framing (bs : Bytes) (v : Val) (pos' : Nat)
     (h : parse Gen.sarLeaderRecord [] bs 0 = .ok (v, pos')) :
@@ -77,6 +141,21 @@ theorem pipeline_shape :
       ["curry(dissoc, ignored)", "curry(remove_spares)", "curry(apply_to_items, transformers)", "curry(as_group)"] ∧
     Gen.Config.facility_related_data__transform_record5.steps =
       ["curry(remove_spares)", "curry(dissoc, ignored)", "curry(apply_to_items, transformers)",
-       "curry(rename, translations=translations)", "curry(as_group)"] := by decide
+       "curry(rename, translations=translations)", "curry(as_group)"] ∧
+    Gen.Config.platform_position__transform_platform_position.steps = expectedPlatformSteps ∧
+    Gen.Config.map_projection__transform_map_projection.steps = expectedMapProjectionSteps ∧
+    Gen.Config.attitude__transform_attitude.steps = expectedAttitudeSteps ∧
+    Gen.Config.data_quality_summary__transform_data_quality_summary.steps =
+      ["curry(remove_spares)", "curry(dissoc, ignored)", "curry(apply_to_items, transformers)", "curry(as_group)"] ∧
+    Gen.Config.sar_leader__transform_metadata.steps = expectedLeaderSteps := by decide
+
+/-- non-vacuity: the documented attitude group for 3 points has two sections of 7 variables with 3 entries each, the
+    platform-position group holds 28-entry state-vector components, the UTM tree has a projection section and the
+    "other" tree has none -/
+example : (match Spec.attitude 3 with | .mk _ gs _ => gs.map (fun g => match g.2 with | .mk vs _ _ => vs.length)) = [7, 7] ∧
+    (match Spec.mapProjectionUTM with | .mk _ gs _ => gs.map Prod.fst) =
+      ["conversion_coefficients", "corner_points", "ellipsoid_parameters", "general_information", "projection"] ∧
+    (match Spec.mapProjectionOther with | .mk _ gs _ => gs.map Prod.fst) =
+      ["conversion_coefficients", "corner_points", "ellipsoid_parameters", "general_information"] := by decide
 
 end Alos2.C04
